@@ -115,6 +115,37 @@ def coq_files():
     return sorted(out)
 
 
+
+_TREE_LOCK = None
+
+
+def tree_lock():
+    """coq/Gen/*.v (tie T) are regenerated from whichever tree PNC_REPO names, and the compiled cone is shared.
+    Runs against the SAME tree may overlap (shared lock); a run against a DIFFERENT tree waits until the
+    others are done (exclusive lock while it re-targets), so that no run ever builds or evaluates against
+    definitions generated from another tree. Held for the life of the process."""
+    global _TREE_LOCK
+    os.makedirs(os.path.join(VERIF, '.work'), exist_ok=True)
+    lockp = os.path.join(VERIF, '.work', 'tree.lock')
+    curp = os.path.join(VERIF, '.work', 'tree.current')
+    mine = os.path.realpath(REPO)
+    f = open(lockp, 'a+')
+    while True:
+        fcntl.flock(f, fcntl.LOCK_SH)
+        try:
+            cur = open(curp).read().strip()
+        except OSError:
+            cur = ''
+        if cur == mine:
+            break
+        fcntl.flock(f, fcntl.LOCK_UN)
+        fcntl.flock(f, fcntl.LOCK_EX)
+        with open(curp, 'w') as g:
+            g.write(mine)
+        fcntl.flock(f, fcntl.LOCK_UN)
+    _TREE_LOCK = f
+    return f
+
 def build(pid, extra_targets=()):
     """(Re)build Props/<pid>.vo and Corr/<pid>.vo with their cones. Props/<pid>.v is always
     re-checked (its .vo is removed first) so that Print Assumptions output is fresh."""
